@@ -3,6 +3,10 @@ import json, os, re, sys, time
 
 VERIF = os.path.dirname(os.path.dirname(os.path.abspath(__file__)))
 KNOWN = os.path.join(VERIF, 'known_findings.json')
+_SCRATCH = os.environ.get('GBSA_REPO', '/repo') not in ('/repo', '/repo/')
+# evidence and replay files describe /repo; runs against a scratch tree (self-test, seeded changes) write elsewhere
+EVDIR = os.environ.get('GBSA_EVIDENCE_DIR') or os.path.join(VERIF, '.cache/scratch-evidence' if _SCRATCH else 'evidence')
+RPDIR = os.environ.get('GBSA_REPLAY_DIR') or os.path.join(VERIF, '.cache/scratch-replay' if _SCRATCH else 'replay')
 
 
 class AnalysisError(Exception):
@@ -85,8 +89,8 @@ class Check:
         for v in self.violations:
             k = kset.get((v['property'], v['rule'], v['key']))
             (listed if k else new).append(v)
-        os.makedirs(os.path.join(VERIF, 'replay'), exist_ok=True)
-        os.makedirs(os.path.join(VERIF, 'evidence'), exist_ok=True)
+        os.makedirs(RPDIR, exist_ok=True)
+        os.makedirs(EVDIR, exist_ok=True)
         wall = time.time() - self.t0
         instances = sum(r['instances'] for r in self.rules.values())
         failures = sum(r['failures'] for r in self.rules.values())
@@ -125,7 +129,7 @@ class Check:
             'wall_s': round(wall, 3),
             'violations': len(new),
         }
-        with open(os.path.join(VERIF, 'evidence', self.pid + '.json'), 'w') as fh:
+        with open(os.path.join(EVDIR, self.pid + '.json'), 'w') as fh:
             json.dump(ev, fh, indent=1)
         out = sys.stdout
         for rid, r in self.rules.items():
@@ -144,7 +148,7 @@ class Check:
             out.write('KNOWN-FINDING: property=%s rule=%s instance=%s %s\n' % (self.pid, v['rule'], v['key'], v['what']))
         for v in new:
             safe = re.sub(r'[^A-Za-z0-9_.-]+', '_', '%s-%s-%s' % (self.pid, v['rule'], v['key']))[:150]
-            path = os.path.join(VERIF, 'replay', safe + '.json')
+            path = os.path.join(RPDIR, safe + '.json')
             with open(path, 'w') as fh:
                 json.dump(v, fh, indent=1)
             loc = '%s:%s' % (v['file'], v['line']) if v['file'] else ''
